@@ -18,6 +18,8 @@ unsigned long long verif_g0, verif_g1, verif_g2, verif_g3, verif_g4, verif_g5, v
 const unsigned char *verif_p0, *verif_p1, *verif_p2, *verif_p3;
 
 unsigned long long xat_bk;	/* ghost byte index (copies of names and values) */
+/* ghost monitor of EA-inode creation / release (moved by the contracts of xattr_create_ea_inode and xattr_inode_dec_ref in update_entry.c) */
+struct xat_mon_s { unsigned int created, dec_old, dec_new, dec_other, ndec; } xat_mon;
 
 #if defined(XAT_UF_STRLEN) && !defined(VERIF_NATIVE)
 /*
